@@ -13,7 +13,7 @@ RULE = ('for every game of families A and B (Streett and Rabin, 4 modes): '
         'four documented quantified formulas evaluated on explicit tables '
         'with the REFERENCE region, universally over rigid constants. For '
         'realizable combinations with non-empty region (quick: 1 per game, '
-        'rotating; thorough: all) the transducer is constructed in a fresh '
+        'rotating; thorough: 8 per game) the transducer is constructed in a fresh '
         'automaton: must not raise; init[impl] must fix the memory, admit '
         'only states with (EnvInit => SysInit /\\ Win) (SysInit '
         'unconditionally if plus_one) and be non-empty in the quantifier '
@@ -88,6 +88,14 @@ def run_case(case, acc):
         realizable = [tuple(case['init'])] if tuple(
             _tupled(case['init'])) in [tuple(_tupled(list(r)))
                                        for r in realizable] else realizable
+    elif case.get('deep'):
+        # thorough: up to 8 constructions per game, spread over the forms
+        h = int(stable_hash({k: v for k, v in case.items()
+                             if k != 'init'})[:8], 16)
+        k = len(realizable)
+        step = max(1, k // 8)
+        realizable = [realizable[(h + i * step) % k]
+                      for i in range(min(8, k))]
     elif not case.get('deep'):
         h = int(stable_hash({k: v for k, v in case.items()
                              if k != 'init'})[:8], 16)
